@@ -226,6 +226,23 @@ def run(check):
         prog, scripts, name = (cancelfam.prog_foreach_hang if j % 2 else cancelfam.prog_foreach_partial)(rng)
         extra.append({"program": prog, "scripts": scripts, "input": cancelfam.base_input(rng), "shape": "cancelled-loop/" + name, "outcome": {}, "pair": None, "drift": True,
                       "triggers": [{"kind": "exec-start", "src": "sub_w0", "nth": rng.choice([1, 2]), "action": "cancel:0"}]})
+    # texts the engine composes itself (disabled message, crash report, deployment failure) for steps with very long ids: they
+    # must be values of the type their stage declares
+    from ..model import Not, Step
+    for j, ln in enumerate([8, 200, 236, 240, 250, 255]):
+        for kind in ("plugin-disabled", "loop-disabled", "crash", "deployfail"):
+            name = ("s" + "x" * 300)[:ln]
+            if kind == "loop-disabled":
+                st = Step(name, "foreach", sub=gen.sub_program("sub.yaml", 1), items=[{"tag": "i0"}], enabled=Expr(Not(In("flag"))))
+            else:
+                st = gen.plugin_step(name, Expr(In("tag")), src="longid")
+                if kind == "plugin-disabled":
+                    st.fields["enabled"] = Expr(Not(In("flag")))
+            ref_ = {"plugin-disabled": Ref(name, "disabled", "output", "message"), "loop-disabled": Ref(name, "disabled", "output", "message"),
+                    "crash": Ref(name, "crashed", "error", "output"), "deployfail": Ref(name, "deploy_failed", "error", "error")}[kind]
+            prog = Program([st], {"report": {"m": Expr(ref_)}}, gen.BASE_INPUT)
+            scripts = gen.make_scripts([st], {name: kind} if kind in ("crash", "deployfail") else {})
+            extra.append({"program": prog, "scripts": scripts, "input": {"tag": "T1", "flag": True}, "shape": "engine-text/%s/id-length-%d" % (kind, ln), "outcome": {}, "pair": None, "drift": True, "expect_out": "report"})
     # ill-typed single-point corruptions of valid programs: whatever preparation decides about them, a run of an accepted one
     # must not end in an internal consistency error or hand over / return ill-typed data
     from . import c10
@@ -293,6 +310,8 @@ def run(check):
             elif run.get("schema_check"):
                 check.report("schema@workflow-output:" + g["shape"].split("/")[0], "case %s (%s): returned output %r does not match OutputSchema(): %s" % (cid, g["shape"], run.get("out_id"), run["schema_check"][:300]),
                              {"case": case, "result": runfam.strip(res)})
+            if g.get("expect_out") and run.get("out_id") != g["expect_out"] and "bug:" not in err.lower():
+                check.report("result@" + g["shape"].split("/")[0], "case %s (%s): expected output %r, got %r / %s" % (cid, g["shape"], g["expect_out"], run.get("out_id"), err[:300]), {"case": case, "result": runfam.strip(res)})
             check.nontrivial(g["shape"])
             continue
         if g.get("corruption"):
@@ -300,6 +319,10 @@ def run(check):
             st_["accepted"] += 1
             run = (res.get("runs") or [{}])[0]
             err = run.get("err") or ""
+            bad_in = [(e["src"], (e.get("data") or {}).get("input_error")) for e in res.get("events") or [] if e["kind"] == "exec-start" and (e.get("data") or {}).get("input_error")]
+            if bad_in:
+                check.report("schema@accepted-illtyped-plugin-input:" + g["corruption"], "case %s: ill-typed program (%s) was accepted and plugin %s was handed an input that violates its schema: %s" % (
+                    cid, g["corruption"], bad_in[0][0], str(bad_in[0][1])[:200]), {"case": case})
             if "bug:" in err.lower():
                 check.report("bug@accepted-illtyped:" + g["corruption"], "case %s: ill-typed program (%s) was accepted and its run ended in an internal consistency error: %s" % (cid, g["corruption"], err[:300]),
                              {"case": case})
